@@ -95,6 +95,12 @@ def ops_for(n, cap, cls_name, tier):
         out.append(("extend", 2))
         out.append(("iadd", 2))
     out.append(("extend", 0))
+    if n + 2 <= cap:
+        out.append(("iadd_gen", 2))  # += accepts any iterable (a generator here), like list.__iadd__
+    for bad in (1.5, "0", None):
+        out.append(("pop_bad", bad))  # list.pop() wants an integer index: TypeError, nothing changes
+    if n >= 2:
+        out.append(("sort_ties",))
     out.append(("reverse",))
     out.append(("sort",))
     out.append(("sort_rev",))
@@ -119,6 +125,16 @@ def ops_for(n, cap, cls_name, tier):
         for i in range(-1, n + 1):
             out.append(("set_focus", i))
     return out
+
+
+class _Tie:
+    """orders tokens by n // 2 only; equality stays identity"""
+
+    def __init__(self, tok):
+        self.tok = tok
+
+    def __lt__(self, other):
+        return self.tok.n // 2 < other.tok.n // 2
 
 
 def _bad_key(t):
@@ -147,6 +163,20 @@ def perform(lst, op, st: State, is_ref: bool, fresh, target):
         lst.extend(fresh[: op[1]])
     elif k == "iadd":
         lst += fresh[: op[1]]
+    elif k == "iadd_gen":
+        lst += (x for x in fresh[: op[1]])
+    elif k == "pop_bad":
+        return lst.pop(op[1])
+    elif k == "sort_ties":
+        # items that tie in the ordering (rank n // 2) but are different objects: a stable sort, and the focus stays on its own item
+        items = [_Tie(t) for t in lst]
+        items.sort()
+        order = [it.tok for it in items]
+        if is_ref:
+            lst[:] = order
+        else:
+            wrapped = {id(t): _Tie(t) for t in lst}
+            lst.sort(key=lambda t: wrapped[id(t)])
     elif k == "reverse":
         lst.reverse()
     elif k == "sort":
